@@ -44,6 +44,10 @@ def write_evidence(prop, tier, seed, aggs, violations, known_hits, wall, extra_a
             "worker_restarts": a["worker_restarts"],
             "crash_candidates": len(a["crash_candidates"]),
             "unconfirmed_crashes": a.get("unconfirmed_crashes", []),
+            # run indexes [0, floor) are explored whatever the load; beyond that the wall budget decides
+            "deterministic_floor_index": a.get("floor_index", 0),
+            "floor_indexes_not_finished": sum(1 for i in range(a.get("floor_index", 0))
+                                              if i not in a["digests"]),
         }
         if hasattr(eng, "summarise_extra"):
             per_engine[a["engine"]].update(eng.summarise_extra(a))
